@@ -3,6 +3,7 @@ package main
 // Ctx: one verification run — loaded packages, SSA, contract table.
 
 import (
+	"strconv"
 	"fmt"
 	"go/ast"
 	"go/constant"
@@ -56,6 +57,7 @@ type Ctx struct {
 	floatLits map[string]string
 	ctrFile   map[*FuncContract]*SpecFile
 	assumptionsUsed map[string]bool
+	globalVals      map[string]string // assumed values of dependencies' package-level string variables
 	curFile *SpecFile
 	binds   map[string]types.Type // interface key -> concrete type
 	implFuns map[string]bool
@@ -81,7 +83,7 @@ func newCtx(repo string, patterns []string, specDirs []string) (*Ctx, error) {
 		contracts: map[string]*FuncContract{}, bound: map[string]bool{}, specs: map[string]*SpecFun{}, specFile: map[string]*SpecFile{},
 		compiled: map[string]*compiledSpec{}, ghosts: map[string]GhostDecl{}, props: map[string][]string{},
 		globals: map[string]int{}, typeIDs: map[string]int{}, fnIDs: map[*ssa.Function]int{}, fnByID: map[int]*ssa.Function{},
-		binds: map[string]types.Type{}, implFuns: map[string]bool{}, cardSorts: map[string]bool{}, codecs: map[string]bool{}, floatLits: map[string]string{}, ctrFile: map[*FuncContract]*SpecFile{}, assumptionsUsed: map[string]bool{}}
+		binds: map[string]types.Type{}, implFuns: map[string]bool{}, cardSorts: map[string]bool{}, codecs: map[string]bool{}, floatLits: map[string]string{}, ctrFile: map[*FuncContract]*SpecFile{}, assumptionsUsed: map[string]bool{}, globalVals: map[string]string{}}
 	for _, d := range defaultDropped {
 		c.dropped = append(c.dropped, regexp.MustCompile(d))
 	}
@@ -168,6 +170,14 @@ func (c *Ctx) addFile(sf *SpecFile) error {
 	}
 	for _, g := range sf.Ghosts {
 		c.ghosts[g.Name] = g
+	}
+	for _, gl := range sf.Globals {
+		i := strings.Index(gl[0], ".")
+		pp, ok := sf.Imports[gl[0][:i]]
+		if !ok {
+			return fmt.Errorf("%s: global: unknown package alias %s", sf.Path, gl[0][:i])
+		}
+		c.globalVals[pp+"."+gl[0][i+1:]] = gl[1]
 	}
 	for _, b := range sf.Binds {
 		saved := c.curFile
@@ -467,6 +477,10 @@ func (c *Ctx) globalConstT(key string, et types.Type) (string, bool) {
 			c.assumptionsUsed["A-GLOBALBYTES: package-level []byte key prefixes keep their initial value (never reassigned)"] = true
 			return c.reg.strLit(bs), true
 		}
+	}
+	if v, ok := c.globalVals[key]; ok && c.reg.sortOf(et) == "Str" {
+		c.assumptionsUsed["A-GLOBALSTR: "+key+" keeps its initial value "+strconv.Quote(v)+" (never reassigned)"] = true
+		return c.reg.strLit(v), true
 	}
 	if n, ok := et.(*types.Named); ok && n.Obj().Name() == "error" && n.Obj().Pkg() == nil {
 		c.assumptionsUsed["A-GLOBALERR: package-level error variables are non-nil, pairwise distinct and never reassigned"] = true
